@@ -475,10 +475,12 @@ func (e *Env) object(o types.Object) Term {
 
 // globalName gives the state variable of a package-level variable.
 func (vc *VC) globalName(o *types.Var) string {
+	n := "g_" + o.Pkg().Name() + "_" + o.Name()
 	if o.Pkg() == vc.P.logPkg.Types {
-		return "g_" + o.Name()
+		n = "g_" + o.Name()
 	}
-	return "g_" + o.Pkg().Name() + "_" + o.Name()
+	vc.globalPkg[n] = o.Pkg().Path()
+	return n
 }
 
 func (vc *VC) globalRef(o *types.Var) string {
